@@ -16,7 +16,7 @@ RULE = ("seeded networks with 2-4 node types and 1-6 structurally identical node
         "fingerprinting) and with each other, short Euler trajectories of both are compared with the reference iterates; "
         "M-vec (slot allocation in cache_func) and M-edge (connection conservation) run inside both compiles; non-trivial = "
         "at least one node type with >= 2 nodes and at least one edge; distinct = distinct spec hash")
-DECIDING = ['derivatives_compared_vec', 'derivatives_compared_novec', 'rows_compared_vec', 'mvec_merges', 'medge_connections',
+DECIDING = ['weight_conservation_checks', 'derivatives_compared_vec', 'derivatives_compared_novec', 'rows_compared_vec', 'mvec_merges', 'medge_connections',
             'medge_eq_matvec', 'medge_eq_indexed']
 ASSUMPTIONS = ['well-formed models (DESIGN 4a)', 'reference semantics vp/ref.py']
 CASE_TIMEOUT = 180
@@ -221,6 +221,31 @@ def make_spec(case, opened):
     return spec, f, r
 
 
+def weight_conservation(obs, spec):
+    from collections import Counter
+    from vp.ref import _walk
+    _, edge_list = _walk(spec['circ'])
+    pairs = Counter((s_, t_) for s_, t_, et, a in edge_list)
+    declared = Counter()
+    for s_, t_, et, a in edge_list:
+        w = float(a.get('weight', 1.0))
+        if w != 1.0 and pairs[(s_, t_)] == 1:           # parallel edges are summed into one entry
+            declared[w] += 1
+    if not declared:
+        return None
+    have = Counter()
+    for name, a in zip(obs['names'], obs['args']):
+        if '/in_edge_' in name and 'weight' in name.rsplit('/', 1)[-1] and not callable(a):
+            for x in np.asarray(observe.to_np(a), dtype=float).ravel().tolist():
+                have[x] += 1
+    missing = {w: (n, have.get(w, 0)) for w, n in declared.items() if have.get(w, 0) < n}
+    if missing:
+        w, (n, h) = sorted(missing.items(), key=lambda kv: abs(kv[0]))[0]
+        return (f"edge weight conservation: weight {w!r} is declared on {n} edge(s) but occurs {h} time(s) in the returned in_edge weight "
+                f"arguments ({len(missing)} declared weights are missing)")
+    return None
+
+
 def run_case(case, ctx):
     spec, feats, risk = make_spec(case, ctx['open_risks'])
     rnd = random.Random(case['cseed'] + 7)
@@ -247,6 +272,13 @@ def run_case(case, ctx):
                 raise observe.Mismatch(f"vectorize={vec}: {e}")
             for k, v in m2.items():
                 mech[f'{k}_{tag}'] = mech.get(f'{k}_{tag}', 0) + v
+            # conservation of edge weights: every declared weight (other than 1.0, which is omitted from the generated code)
+            # must still be present among the returned in_edge weight arguments - whatever its magnitude (derivatives at O(1)
+            # states cannot see an error in a weight of 1e-9)
+            msg_w = weight_conservation(obs, spec)
+            if msg_w:
+                raise observe.Mismatch(f"vectorize={vec}: {msg_w}")
+            mech['weight_conservation_checks'] = mech.get('weight_conservation_checks', 0) + 1
             mon = monitors.collect()
             for k, v in mon['counters'].items():
                 mech[k] = mech.get(k, 0) + v
